@@ -123,6 +123,8 @@ def param_mutations(func, repo=None, cls=None, _stack=()):
     """names of parameters that func mutates in place (p.append(..), p[k] = v, p += ..), directly or by handing them on to a
     method of the same class (or to itself) in a slot that method mutates"""
     key = (getattr(repo, "digest", None), func.construct)
+    if len(_PM_CACHE) > 4000:
+        _PM_CACHE.clear()
     if key in _PM_CACHE:
         return _PM_CACHE[key]
     out = _param_mutations_direct(func)
